@@ -446,7 +446,7 @@ int main(int argc, char **argv) {
   parts.push_back({"c09.reorder", [](uint64_t, Rng &rng, CaseResult &r) { optCase(rng, r, O_C09, true); }, 30});
   parts.push_back({"c05.opt", [](uint64_t, Rng &rng, CaseResult &r) { optCase(rng, r, O_C05); }, 20});
   parts.push_back({"c09.opt", [](uint64_t, Rng &rng, CaseResult &r) { optCase(rng, r, O_C09); }, 20});
-  parts.push_back({"c02.ds.closure", [](uint64_t idx, Rng &, CaseResult &r) { closureCase(idx, r); }, 300});
+  parts.push_back({"c02.ds.closure", [](uint64_t idx, Rng &, CaseResult &r) { closureCase(idx, r); }, 30});
   parts.push_back({"c02.ds.walk", [](uint64_t, Rng &rng, CaseResult &r) { walkCase(rng, r); }, 10});
   return vf::runMain(argc, argv, parts);
 }
